@@ -1200,7 +1200,8 @@ func (p *Program) fillContract(fc *FuncContract, clauses []*rawClause, body *ast
 					default:
 						var sb strings.Builder
 						printNode(&sb, p.fset, st)
-						if strings.Join(strings.Fields(sb.String()), " ") == want {
+						got := strings.Join(strings.Fields(sb.String()), " ")
+						if got == want || (strings.HasSuffix(want, "...") && strings.HasPrefix(got, strings.TrimSuffix(want, "..."))) {
 							hits = append(hits, st)
 						}
 					}
